@@ -126,6 +126,12 @@ def raw_dtype_root(v, depth=0):
             if v.kwd("dtype") == Const("float"):
                 return None
             return raw_dtype_root(v.args[0], depth + 1) if v.args else None
+        if v.fn in ("ite", "where") and len(v.args) == 3:
+            for a in v.args[1:]:            # a selection still has the caller's dtype when one of its arms has
+                r = raw_dtype_root(a, depth + 1)
+                if r is not None:
+                    return r
+            return None
         if v.fn in RAW_VIEW_FNS and v.args:
             for a in (v.args if v.fn in ("concat", "union1d") else v.args[:1]):
                 r = raw_dtype_root(a, depth + 1)
@@ -564,7 +570,7 @@ class Evaluator:
         node = fi.node
         for dec in reversed(node.decorator_list):
             src = ast.unparse(dec)
-            if src in ("staticmethod", "classmethod", "property") or src.endswith(".setter"):
+            if src in ("staticmethod", "classmethod", "property") or src.endswith(".setter") or src.split(".")[-1] == "cached_property":
                 continue
             dfr = frame if frame is not None else Frame(fi.module)
             d = self.eval(dec, dfr)
